@@ -35,7 +35,7 @@ def detect_and_initialize(ex, name, args):
 
 
 STATS = {}
-FULL_QUERY_NODE_LIMIT = 2500
+FULL_QUERY_NODE_LIMIT = 400
 USE_CONE_MERGE = False   # substitution + rebuild is slower than the lockstep walk on heavily fragmented (ARX) terms
 _CONGR_CACHE = {}
 
@@ -121,6 +121,10 @@ def solve_neq(pairs, pc=(), timeout_s=120, assumptions=None, congruence=True):
                 STATS['congruence'] = STATS.get('congruence', 0) + 1
                 STATS['residuals'] = STATS.get('residuals', 0) + len(residual)
                 return 'unsat', None, time.time() - t0
+    if not congruence:
+        _names, _n = T.support([x for p in diff for x in p])
+        if _n > 4 * FULL_QUERY_NODE_LIMIT:
+            return 'unknown', None, time.time() - t0
     if congruence:
         # guard: a monolithic miter over a deep cryptographic DAG is known not to finish (measured); do not even build it
         _names, _n = T.support([x for p in diff for x in p])
